@@ -37,6 +37,26 @@ import ast
 
 from __main__ import Fact, lean_bool, lean_list, lean_str
 
+import importlib.util
+import os
+import sys
+
+
+def _load_norm():
+    """tools/extractors/normalise_rpc.py, loaded once per process under a name of its own (sys.path is left alone)."""
+    name = "jrv_normalise_rpc"
+    if name not in sys.modules:
+        spec = importlib.util.spec_from_file_location(
+            name, os.path.join(os.path.dirname(os.path.abspath(__file__)), "normalise_rpc.py"))
+        mod = importlib.util.module_from_spec(spec)
+        sys.modules[name] = mod
+        spec.loader.exec_module(mod)
+    return sys.modules[name]
+
+
+norm = _load_norm()
+
+
 PROPERTIES = ["C13"]
 
 MUTATORS = {"setdefault", "append", "update", "pop", "popitem", "add", "remove", "clear", "extend", "insert",
@@ -556,6 +576,9 @@ def _copy_duplicates(src):
     if cp is None or init is None:
         return None
     init_params = [a.arg for a in init.args.args][1:]
+    # canonical form of "the argument, or a new dictionary": `if X: self.X = X else: self.X = {}`, `X if X else {}` … are
+    # `self.X = X or {}`
+    init = norm.or_defaults(norm.clone(init))
     # what __init__ does with no/None argument for the field: a new empty dictionary?
     init_fresh = {}
     for n in ast.walk(init):
@@ -678,7 +701,9 @@ def _config_sites(ctxs):
             elif isinstance(cfg, ast.Name) and cfg.id in c.locals:
                 vals = _leaf_values(c, cfg.id)
                 # the per-request local of _marshaled_single_dispatch: bound to the copy and to the server's object
-                if any(isinstance(v, ast.Call) and isinstance(v.func, ast.Attribute) and v.func.attr == "copy" for v in vals):
+                # (every value it can hold must be one of the two: a name that can also hold an object read from
+                # elsewhere — a cached copy kept on the server, say — is `other`)
+                if any(_is_copy_call(v) for v in vals) and all(_is_copy_call(v) or _is_self_attr(v, "json_config") for v in vals):
                     src = "request"
                 elif vals and all(_expr_shared(c, v) for v in vals):
                     src = "server"
@@ -691,6 +716,7 @@ def _config_sites(ctxs):
 
 
 def facts(src):
+    src = norm.nsource(src)
     funcs = _functions(src)
     if ROOT not in funcs:
         return [Fact("servePathSharedWrites", "List (String × Nat × String)", None, ["C13"], "serve path root not found"),
